@@ -139,3 +139,26 @@ def output_writer(ctx, prog=None):
     _OW.clear()
     _OW[key] = {'mir': b['id'], 'name': b['id'].split('::')[-1], 'file': 'cli/src/writer.rs', 'line': b['line']}
     return _OW[key]
+
+
+def override_fn(ctx):
+    """The function of the CLI crate that lays the command-line options over the loaded configuration — `override_configuration(config,
+    &options)` on the pinned tree, `Config::overridden_by(self, &options)` elsewhere — found by its signature: it takes the whole
+    Config (by value or `self`) and the Args, and hands a Config back.  Returns (astq function, config parameter name, options
+    parameter name)."""
+    from . import core
+    cands = []
+    for g in ctx.astq['functions']:
+        if not g['file'].startswith('cli/src/') or g.get('nested_in'):
+            continue
+        ptys = {p_['name']: str(p_.get('ty') or '') for p_ in g['params']}
+        opts = [n for n, t in ptys.items() if t.replace('&', '').strip() == 'Args']
+        cfgs = [n for n, t in ptys.items() if t.replace('&', '').replace('mut ', '').strip() == 'Config'] or (['self'] if 'self' in ptys and (g.get('self_ty') or '') == 'Config' else [])
+        if opts and cfgs and 'Config' in str(g.get('ret') or '').replace('Self', 'Config' if (g.get('self_ty') or '') == 'Config' else 'Self'):
+            cands.append((g, cfgs[0], opts[0]))
+    named = [c for c in cands if c[0]['name'].split('::')[-1] == 'override_configuration']
+    if len(cands) > 1 and len(named) == 1:
+        cands = named
+    if len(cands) != 1:
+        raise core.Incomplete(f"CLI crate: the function that lays the command-line options over the configuration (takes Config and &Args, returns Config) expected once, found {[c[0]['qual'] for c in cands]}")
+    return cands[0]
